@@ -291,13 +291,18 @@ def solution_mapping(chk):
             res = I.Opaque("result", sol=I.Model("sol", sol))
             f = eng_.call(eng_.get_function(MOD, "_transform_solution_to_original_domain"), [res, tf, False, K])
             out = eng_.call(f, [I.Arr((1,), lambda i: p, "real")])
+            # history: the same callable evaluated on two further arrays of equal length (generic entries, so also equal first / last entries)
+            qa, qb = z3.Reals("qa0 qa1 qa2"), z3.Reals("qb0 qb1 qb2")
+            eng_.call(f, [I.Arr((3,), lambda i: M.select_const(i, [lambda v=v: v for v in qa]), "real")])
+            outh = eng_.call(f, [I.Arr((3,), lambda i: M.select_const(i, [lambda v=v: v for v in qb]), "real")])
+            hist = ([outh.fn(k, 1) for k in range(K)], qb[1])
             f2 = eng_.call(eng_.get_function(MOD, "_transform_solution_to_original_domain"), [res, tf, True, K])
             out2 = eng_.call(f2, [I.Arr((1,), lambda i: p, "real")])
-            return [out.fn(k, 0) for k in range(K)], ufs, p, out2.fn(0)
+            return [out.fn(k, 0) for k in range(K)], ufs, p, out2.fn(0), hist
         for o in chk.explore(f"_transform_solution_to_original_domain/K={K}", thunk, func=fq):
             if o.kind != "return":
                 continue
-            vals, (Tf, Ti, D1, D2, D3), p, only = o.value
+            vals, (Tf, Ti, D1, D2, D3), p, only, (hvals, hq) = o.value
             gs = [D1(p), D2(p), D3(p)]
             sv = [S(k, Tf(p)) for k in range(K)]
             rep = {"what": "solution", "K": K}
@@ -307,6 +312,12 @@ def solution_mapping(chk):
                 want = sum(T.zr(bell_def(i + 1, j + 1, gs)) * sv[j + 1] for j in range(K - 1))
                 chk.add(f"_transform_solution_to_original_domain/K={K}/post/derivative{i+1}-is-chain-rule", list(o.pc), T.zr(vals[i + 1]) == want, func=fq,
                         meta={"replay": rep})
+            # third evaluation of the same callable: a function of its argument only (no state kept between evaluations)
+            gh = [D1(hq), D2(hq), D3(hq)]
+            sh = [S(k, Tf(hq)) for k in range(K)]
+            wants = [sh[0]] + [sum(T.zr(bell_def(i + 1, j + 1, gh)) * sh[j + 1] for j in range(K - 1)) for i in range(K - 1)]
+            chk.add(f"_transform_solution_to_original_domain/K={K}/history/later-evaluation-depends-only-on-its-argument", list(o.pc),
+                    z3.And(*[T.zr(a) == b for a, b in zip(hvals, wants)]), func=fq, meta={"replay": rep})
 
 
 def build(chk):
